@@ -74,7 +74,6 @@ impl Profile {
 //@returns Result<(), SkErr>
 //@params &mut self, rho: &mut Arr, rho_bulk: &mut Arr, debug: bool
 //@keep converged: bool
-//@keep conv: bool
 //@event solve_picard args=1,2
 //@event solve_anderson args=1,2
 //@event solve_newton args=1,2
@@ -88,11 +87,11 @@ impl Profile {
 //@skeleton feos-dft/src/profile/mod.rs DFTProfile::solve
 //@returns Result<(), SkErr>
 //@params &mut self, debug: bool
-//@track density: Arr
-//@track bulk_density: Arr
+//@track @call_solver.0: Arr
+//@track @call_solver.1: Arr
 //@event call_solver args=0,1,3
 //@readonly mapv,clone,component_index,into_iter
-//@on stmt self.density = Density::from_reduced(density) => self.density = density;
+//@on stmt self.density = Density::from_reduced(@call_solver.0) => self.density = @call_solver.0;
 //@on stmt self.bulk = $..r => ;
     ensures
         // the profile stores exactly the iterate the solver returned
